@@ -20,6 +20,12 @@ from .ast.printer import RawPrinter
 from .ast.visitor import FullAstVisitor
 from .environment import build_filename
 
+
+def split_lines(text: str) -> T.List[str]:
+    '''Like str.splitlines(keepends=True), but a line ends at a newline only:
+    a form feed or U+2028 inside a comment is part of the comment.'''
+    return [line for line in re.split('(?<=\n)', text) if line]
+
 if T.TYPE_CHECKING:
     import argparse
     from typing_extensions import Literal
@@ -335,13 +341,13 @@ class TrimWhitespaces(FullAstVisitor):
         self.in_block_comments = False
 
     def visit_WhitespaceNode(self, node: mparser.WhitespaceNode) -> None:
-        lines = node.value.splitlines(keepends=True)
+        lines = split_lines(node.value)
         node.value = ''
         in_block_comments = self.in_block_comments
         with_comments = ['#' in line for line in lines] + [False]
         for i, line in enumerate(lines):
             has_nl = line.endswith('\n')
-            line = line.strip()
+            line = line.strip(' \t\r\n')
             if line.startswith('\\'):
                 node.value += ' '  # add space before \
                 node.is_continuation = True
@@ -672,7 +678,7 @@ class ArgumentFormatter(FullAstVisitor):
         self.exit_node(node)
 
     def visit_WhitespaceNode(self, node: mparser.WhitespaceNode) -> None:
-        lines = node.value.splitlines(keepends=True)
+        lines = split_lines(node.value)
         if lines:
             indent = (node.condition_level + self.level) * self.config.indent_by
             node.value = '' if node.block_indent else lines.pop(0)
@@ -799,7 +805,7 @@ class ComputeLineLengths(FullAstVisitor):
         return line_length
 
     def count_multiline(self, value: str) -> None:
-        lines = value.splitlines(keepends=True)
+        lines = split_lines(value)
         for line in lines:
             if line.endswith('\n'):
                 self.lengths.append(self.length + self.len(line) - 1)
